@@ -1307,6 +1307,16 @@ fn main() {
                             list_json(&[atom_json(&[36]), q(marker), q(int_atom(pg.r.below(2) as i64)), q(call), q(atom_json(&[]))])
                         } else { call }
                     }
+                    "C31" if pg.r.chance(1, 6) => {
+                        // guard chains at the LIMIT_SOFTFORK boundary: 19, 20, 21, 22 levels
+                        let levels = *pg.r.pick(&[19usize, 20, 21, 22]);
+                        let mut inner = q(pg.value());
+                        for _ in 0..levels {
+                            let marker = atom_json(&[0x7f; 7]);
+                            inner = list_json(&[atom_json(&[36]), q(marker), q(int_atom(pg.r.below(2) as i64)), q(inner), q(atom_json(&[]))]);
+                        }
+                        inner
+                    }
                     "C31" | "C08" => {
                         let g = pg.guard(depth);
                         if pg.r.chance(1, 2) { list_json(&[atom_json(&[4]), g, pg.expr(1)]) } else { g }
@@ -1436,7 +1446,8 @@ fn main() {
             }
             // C31: guards (hook events), LIMIT_SOFTFORK depth
             "C31" => {
-                run_one(&mut out, case, &prog, &env, &Cfg::new("base", "chia", base_flags, 0), &mut line);
+                let f = base_flags | if r.chance(1, 3) { 0x0010 } else { 0 };
+                run_one(&mut out, case, &prog, &env, &Cfg::new("base", "chia", f, 0), &mut line);
             }
             // C13: near the allocator caps
             "C13" => {
